@@ -311,6 +311,38 @@ func PickFingerprint(ch *simrt.Chooser, stratum int64, mk func() *tls.Config) *F
 		if err := tmp.BuildHandshakeState(); err == nil {
 			blunt := ch.Bool(50, "blunt")
 			raw := append([]byte(nil), tmp.HandshakeState.Hello.Raw...)
+			// sometimes the capture also carries a key share of a group the library has no generator
+			// for (say a browser's experimental hybrid): such a spec may be refused, or used with a
+			// share of its own making - a replay of the captured public key on every connection is
+			// what must not happen
+			if pch, err := wire.ParseClientHello(raw); err == nil && len(pch.KeyShares) > 0 && ch.Bool(15, "fp-foreign-share") {
+				grp := []uint16{0xfe32, 0x001e, 0xfe31}[ch.Pick(3, "foreign-group")]
+				kx := make([]byte, map[uint16]int{0xfe32: 1249, 0x001e: 56, 0xfe31: 1216}[grp])
+				ch.Bytes(kx, "foreign-share")
+				alt := Reserialize(pch, func(es []wire.Extension) []wire.Extension {
+					for i := range es {
+						switch es[i].Type {
+						case 51:
+							d := es[i].Data
+							entry := append([]byte{byte(grp >> 8), byte(grp), byte(len(kx) >> 8), byte(len(kx))}, kx...)
+							nd := append(append([]byte(nil), d[2:]...), entry...)
+							es[i].Data = append([]byte{byte(len(nd) >> 8), byte(len(nd))}, nd...)
+						case 10:
+							d := es[i].Data
+							nd := append(append([]byte(nil), d[2:]...), byte(grp>>8), byte(grp))
+							es[i].Data = append([]byte{byte(len(nd) >> 8), byte(len(nd))}, nd...)
+						}
+					}
+					return es
+				})
+				fp := &tls.Fingerprinter{AllowBluntMimicry: blunt}
+				if fs, err := fp.FingerprintClientHello(AsRecord(alt)); err == nil {
+					if _, err := DryHello(mk(), tls.HelloCustom, fs); err == nil {
+						raw = alt // the library accepts such a spec: use it
+						f.Desc = fmt.Sprintf("foreign-share-group=%04x", grp)
+					}
+				}
+			}
 			mkfp := func() *tls.ClientHelloSpec {
 				fp := &tls.Fingerprinter{AllowBluntMimicry: blunt}
 				fs, err := fp.FingerprintClientHello(AsRecord(raw))
